@@ -2554,7 +2554,11 @@ class Convex:
         if self.xtype not in 'XL':
             raise ValueError('Convex functions do not support the sum() method.')
 
-        return Convex(self.affine_in, self.affine_out.sum(axis=axis),
+        affine_in = self.affine_in
+        if affine_in.shape != self.affine_out.shape:
+            affine_in = affine_in + np.zeros(self.affine_out.shape)
+
+        return Convex(affine_in, self.affine_out.sum(axis=axis),
                       self.xtype, self.sign, self.multiplier, axis, params=self.params)
 
     def __call__(self):
